@@ -107,7 +107,7 @@ def gen_links(tier, seed, rels):
                     others = [with_y(c, encode(vals, miss, e), e) for e in rng.sample(encs, 2) if e != ndA]
                     if variant != "vplc" and miss:
                         # float cubes: the usual float nodata values (float64 / float32 maximum, 1e300) - their squares overflow
-                        e = rng.choice([HUGE, -HUGE, int(1e300), -int(3.4028234663852886e38)])
+                        e = rng.choice([HUGE, -HUGE, int(1e300), -int(3.4028234663852886e38), 16777217, 2147483647, -16777219])   # the last three: finite but not exact in float32
                         others.append(with_y(c, encode(vals, miss, e), e))
                     if variant in ("gu", "pgu", "wcv", "wcvp") and miss:
                         for e in rng.sample(["nan", "inf", "-inf"], 2):
